@@ -70,14 +70,22 @@ class Lock:
 
 # ---------------------------------------------------------------- Coq
 
-def coq_build(clean=False):
+def coq_build(clean=False, dev_targets=None):
     with Lock("coq"):
         if clean:
             sh("git clean -fdXq .", cwd=COQ)
-        if not os.path.exists(os.path.join(COQ, "Makefile")):
+        mk, cp = os.path.join(COQ, "Makefile"), os.path.join(COQ, "_CoqProject")
+        if not os.path.exists(mk) or os.path.getmtime(mk) < os.path.getmtime(cp):
             rc, out = sh("coq_makefile -f _CoqProject -o Makefile", cwd=COQ)
             if rc != 0:
                 raise Broken("coq_makefile", out)
+        if dev_targets:
+            # development aid (VERIF_REPO runs only): build just this property's files so that a
+            # half-written file of another builder does not block the run
+            rc, out = sh("timeout 3000 make -j8 " + " ".join(dev_targets), cwd=COQ)
+            if rc != 0:
+                raise Broken("Coq build (make %s)" % " ".join(dev_targets), out[-4000:])
+            return out
         rc, out = sh("timeout 3000 make -j16", cwd=COQ)
         if rc != 0:
             raise Broken("Coq build (make -C coq)", out[-4000:])
@@ -155,13 +163,13 @@ def eval_cases(pid, wdir):
 
 # ---------------------------------------------------------------- Go harness
 
-def harness_build():
+def harness_build(pid=""):
     """builds the harness against /repo's working tree.  Development aid: VERIF_REPO=<dir> builds a
     private copy of the harness against another checkout (used to try seeded changes in a scratch
     worktree without touching /repo); the registered checks never set it."""
     alt = os.environ.get("VERIF_REPO")
     if alt:
-        hdir = os.path.join(WORK, "harness-alt-" + str(zlib.crc32(alt.encode()) % 100000))
+        hdir = os.path.join(WORK, "harness-alt-" + pid + "-" + str(zlib.crc32(alt.encode()) % 100000))
         shutil.rmtree(hdir, ignore_errors=True)
         excl = tuple(x for x in os.environ.get("VERIF_HARNESS_EXCLUDE", "").split(",") if x)
         shutil.copytree(HARNESS, hdir, ignore=lambda d, names: [n for n in names if excl and n.startswith(excl)])
@@ -250,7 +258,11 @@ def main(argv):
     mism, ncases, nshards = [], 0, 0
     coqchk = None
     try:
-        coq_build(clean=(tier == "thorough" and os.environ.get("VERIF_NO_CLEAN") != "1"))
+        if os.environ.get("VERIF_REPO"):
+            coq_build(dev_targets=["theories/Properties/%s.vo" % pid] + ["theories/Harness/%s.vo" % h for h in cfg.get("harness_vo", [pid, "Net", "AppNet", "C12"])
+                                                                                 if os.path.exists(os.path.join(COQ, "theories", "Harness", h + ".v"))])
+        else:
+            coq_build(clean=(tier == "thorough" and os.environ.get("VERIF_NO_CLEAN") != "1"))
         hits = scan_forbidden()
         if hits:
             raise Broken("forbidden declarations in the Coq development", "\n".join(hits))
@@ -259,7 +271,7 @@ def main(argv):
             extra = [x for x in a["axioms"] if x not in ALLOWED_AXIOMS]
             if extra:
                 raise Broken("theorem %s depends on unexpected axioms" % a["theorem"], str(extra))
-        binp = harness_build()
+        binp = harness_build(pid)
         rep = harness_run(binp, pid, cfg["test"], tier, seed, wdir, cfg.get("timeout", {}).get(tier, 1500))
         mism, ncases, nshards = eval_cases(pid, wdir)
         if tier == "thorough" and os.environ.get("VERIF_NO_COQCHK") != "1":
